@@ -1,5 +1,6 @@
 """C03 — counterparty commitments advance only over properly revoked predecessors."""
 import lib
+import gen_rustfn
 from props import chan_common
 
 MANIFEST = dict(
@@ -8,10 +9,13 @@ MANIFEST = dict(
          "C03_revocation_matches_signed_point (the accepted secret's point is the point signed for that number), C03_resign_same "
          "(a number is re-signed only for the identical point and content), and for VLS's compact secret store "
          "C03_store_accepts_only_consistent / C03_store_keeps_the_tree (an accepted secret derives every secret stored below it; a "
-         "whole BOLT-3 tree fed in order is accepted and retrievable in <= 49 entries).  Correspondence and monitor on the chan "
+         "whole BOLT-3 tree fed in order is accepted and retrievable in <= 49 entries).  C03_commit_update_is_source / "
+         "C03_revoke_update_is_source: the model's two counterparty-side state updates ARE the source's - "
+         "EnforcementState::set_next_counterparty_commit_num / _revoke_num are translated on every run by tools/gen_rustfn.py "
+         "(Gen/EnforcementGen.v) and proved equal to set_cp_commit / set_cp_revoke in both build profiles.  Correspondence and monitor on the chan "
          "domain as for C01 (the store itself is additionally driven against Model/Secrets.v by the C18 check).",
     design="§4 C03",
-    note=lib.TB + "Points and secrets are identities in the state-machine model; 'secret s has public point p' and the store's chain "
+    note=lib.TB + "Additionally trusted: tools/gen_rustfn.py and the meaning Base/Rust.v gives to the Rust constructs it reads.  Points and secrets are identities in the state-machine model; 'secret s has public point p' and the store's chain "
          "verdict are oracle inputs computed by the harness from libsecp256k1 and the real store; the hash and bit-flip of the store "
          "theorems are universally quantified parameters.",
     technique="Coq proof (state-machine invariant by induction over request histories; store refinement) + vm_compute correspondence with the Rust implementation",
@@ -19,6 +23,21 @@ MANIFEST = dict(
 
 
 def run(res):
-    chan_common.run(res, "C03.v", ["C03_sign_needs_revocations", "C03_at_most_two_unrevoked",
-                                   "C03_revocation_matches_signed_point", "C03_resign_same",
-                                   "C03_store_accepts_only_consistent", "C03_store_keeps_the_tree", "C03_nonvacuous"], "C03")
+    # the translator regenerates Gen/EnforcementGen.v from /repo's validator.rs under the build lock, right before the
+    # theorems that relate it to the model's state updates are re-checked
+    report = {}
+
+    def regen():
+        report.update(gen_rustfn.generate_enforcement(lib.REPO))
+    try:
+        chan_common.run(res, "C03.v", ["C03_sign_needs_revocations", "C03_at_most_two_unrevoked",
+                                       "C03_revocation_matches_signed_point", "C03_resign_same",
+                                       "C03_store_accepts_only_consistent", "C03_store_keeps_the_tree",
+                                       "C03_commit_update_is_source", "C03_revoke_update_is_source", "C03_nonvacuous"],
+                        "C03", pre=regen)
+    except gen_rustfn.GenError as e:
+        res.violation("the translator cannot read EnforcementState::set_next_counterparty_commit_num / _revoke_num (a "
+                      "construct outside its fragment): %s" % e,
+                      {"translator": "tools/gen_rustfn.py", "source": "vls-core/src/policy/validator.rs", "error": str(e),
+                       "theorem": "C03_commit_update_is_source"}, has_input=False)
+    res.coverage["translated_from_source"] = report
